@@ -201,11 +201,11 @@ for _s, _k in KINDS:
 # Layer V: move chains (C13, C14) - extracted verbatim, verified by Verus
 # ---------------------------------------------------------------------------------------------
 STEP = ["C03/make/%s/%s" % (_k, _c) for _s, _k in KINDS + [("null", "Null")] for _c in ("w", "b")]
-V("C13/chain/verus", ["C13", "C14", "C04", "C02"], "chain.vspec",
+V("C13/chain/verus", ["C13", "C14", "C04", "C02", "C05"], "chain.vspec",
   ["BaseMoveChain::new", "BaseMoveChain::startpos", "BaseMoveChain::last", "BaseMoveChain::len", "BaseMoveChain::is_empty", "BaseMoveChain::get", "BaseMoveChain::outcome",
    "BaseMoveChain::is_finished", "BaseMoveChain::clear_outcome", "BaseMoveChain::set_outcome", "BaseMoveChain::reset_outcome", "BaseMoveChain::calc_outcome",
    "BaseMoveChain::set_auto_outcome", "BaseMoveChain::do_finish_push", "BaseMoveChain::push_unchecked", "BaseMoveChain::push", "BaseMoveChain::pop", "Outcome::is_force", "Outcome::passes"],
-  "for chains of ANY length and any Repeat / Make implementation satisfying their contracts: push on Ok appends exactly the denoted legal move (board == apply, undo recorded, table +1), on Err changes nothing; pop removes exactly the last entry, restores the previous board, clears the outcome, table -1; lemmas: the chain invariant (board == replay(start, moves), undo data and legality of every entry, table == multiset of all positions so far) is established by new and preserved by push/pop/outcome operations; calc_outcome satisfies the C14 precedence relation; set_auto_outcome stores exactly when the filter passes",
+  "for chains of ANY length and any Repeat / Make implementation satisfying their contracts: push on Ok appends exactly the denoted legal move (board == apply, undo recorded, table +1), on Err changes nothing; pop removes exactly the last entry, restores the previous board, clears the outcome, table -1; lemmas: the chain invariant (board == replay(start, moves), undo data and legality of every entry, table == multiset of all positions so far) is established by new and preserved by push/pop/outcome operations; calc_outcome satisfies the C14 precedence relation; set_auto_outcome stores exactly when the filter passes; history lemmas (any length): an invariant preserved by every step holds along every history (C05), and undoing a whole history newest-first returns the start position (C04)",
   assumes=STEP + ["C07/calc-outcome", "C11/try-from/normalised", "C20/types/outcome-filter"])
 
 # ---------------------------------------------------------------------------------------------
@@ -414,6 +414,12 @@ K("C01/legal-gen/end-to-end-small", ["C01", "C06", "C19"], MG + "c01_legal_gener
    "movegen::semilegal::gen_*", "movegen::semilegal::gen_*_into", "movegen::UnsafeMoveList::push", "ArrayVec::retain"],
   "for every valid position with at most two men a side and an arbitrary witness move w: each of the five public legal generators returns w exactly once iff w is legal by the rules and in that generator's class (real macro-generated glue, real ArrayVec)",
   bounded="positions with at most 2 men per side (the unbounded statement is the composition of C01/gen/*, C01/gen/dispatch, C01/legal/*)", timeout=5400, mem_gb=24, mem_est=8)
+
+K("C17/styled/empty-chain", ["C17"], CH + "c17_styled_list_empty_chain", ["<StyledList as Display>::fmt", "<UciList as Display>::fmt", "BaseMoveChain::styled", "BaseMoveChain::uci"],
+  "for the chain without moves and every number policy (incl. all 65536 custom numbers), move style, status policy and stored outcome: the styled text is exactly the status token of the STORED outcome (or nothing when hidden); the UCI list is empty", timeout=2400)
+K("C17/lists/fixed-game", ["C17"], CH + "c17_lists_fixed_game", ["<StyledList as Display>::fmt", "<UciList as Display>::fmt", "BaseMoveChain::from_uci_list", "BaseMoveChain::push_uci_list"],
+  "for one fixed 3-ply game starting with Black to move and every number policy (Omit / FromBoard / Custom n), status policy and stored outcome: the SAN list is 'N... e5 N+1. Nf3 Nc6 [status]' with numbers continuing from the start position's (or the custom) number; the UCI list is the moves in order joined by single spaces, and replaying it rebuilds an equal chain",
+  bounded="one fixed game; SAN style only; custom start numbers < 256", timeout=5400, mem_gb=24, mem_est=8)
 
 
 def by_id():
